@@ -11,6 +11,7 @@ import hmac
 import io
 import logging
 import random
+import re
 
 # Typing imports
 from typing import Dict, Iterator, List, NamedTuple, Optional, Tuple, Union, overload
@@ -235,15 +236,16 @@ def parse_raw_http(data: bytes) -> Union[HttpRequest, HttpResponse]:
         raise ValueError(f"Error in parsing request status line: {first_line!r}")
     method, uri, _version = parts
 
-    # sanitize uri bytes for `urlparse()` to avoid possible decode errors
-    uri = uri.decode("ascii", errors="ignore")
-    if uri.startswith("/"):
-        # origin-form request target: it is a path, not a URL ("//a/b" has an empty first segment, no network location)
-        uri, _, query = uri.partition("?")
-    else:
+    # latin-1 maps every byte to one character and back, no byte of the request target gets lost
+    uri = uri.decode("latin-1")
+    if re.match(r"[A-Za-z][A-Za-z0-9+.-]*://", uri):
+        # absolute-form request target (request to a proxy)
         result = urlsplit(uri)
         uri, query = result.path, result.query
-    uri = uri.encode()
+    else:
+        # origin-form request target: it is a path, not a URL ("//a/b" has an empty first segment, no network location)
+        uri, _, query = uri.partition("?")
+    uri = uri.encode("latin-1")
     # percent-encoded bytes >= 0x80 cannot be round-tripped by parse_qsl on bytes input, decode them as latin-1
     params = {k.encode("latin-1"): v.encode("latin-1") for k, v in parse_qsl(query, encoding="latin-1")}
     return HttpRequest(method=method, body=body, headers=headers, uri=uri, params=params)
